@@ -41,6 +41,30 @@ theorem specForEachPair_pure (g : Item → Item → Seq) (hg : ∀ x y, callf a 
     simp only [specForEachPair, hg, specForEachPair_pure g hg xs ys, pure_bind, List.zipWith_cons_cons,
       List.flatten_cons]
 
+/-- the keys of `fn:sort` are computed from each occurrence of an item, in order -/
+theorem specKeys_pure (k : Item → Seq) (g : Item → List Int) (hk : ∀ x, callf a [[x]] = pure (k x))
+    (hg : ∀ x, keyOf (k x) = .ok (g x)) :
+    ∀ xs : Seq, specKeys callf a xs = pure (xs.map fun x => (x, g x))
+  | [] => rfl
+  | x :: xs => by
+    simp only [specKeys, hk, hg, SM.lift, pure_bind, specKeys_pure k g hk hg xs, List.map_cons]
+
+theorem sortSpec_short : ∀ (l : List (Item × List Int)), l.length < 2 → sortSpec l = l
+  | [], _ => rfl
+  | [x], _ => rfl
+  | _ :: _ :: _, h => by simp only [List.length_cons] at h; omega
+
+theorem specSort_pure (k : Item → Seq) (g : Item → List Int) (hk : ∀ x, callf a [[x]] = pure (k x))
+    (hg : ∀ x, keyOf (k x) = .ok (g x)) (xs : Seq) :
+    specSort callf a xs = pure ((sortSpec (xs.map fun x => (x, g x))).map (·.1)) := by
+  unfold specSort
+  split
+  · rename_i h
+    rw [sortSpec_short _ (by simpa using h)]
+    have : ((fun x : Item × List Int => x.1) ∘ fun x => (x, g x)) = id := rfl
+    simp [List.map_map, this]
+  · simp only [specKeys_pure callf a k g hk hg xs, pure_bind]
+
 end
 
 /-- calling a partial application = calling the underlying function item with the placeholders
